@@ -549,5 +549,413 @@ theorem value_prefix (s : Bool) (buf1 suf : Buf) : ∀ f,
           · simp [hcol] at h
       · simp [hq] at h
 
+/-! ### the other direction: a value of `buf1` stays a value when bytes follow that cannot continue a number -/
+
+/-- the first byte behind `buf1` cannot continue a number token -/
+def Term (suf : Buf) : Prop := ∀ c, suf[0]? = some c → isDigit c = false ∧ c ≠ 46 ∧ c ≠ 101 ∧ c ≠ 69
+
+theorem get_end (buf1 suf : Buf) : (buf1 ++ suf)[buf1.size]? = suf[0]? := by
+  rw [Array.getElem?_append_right (Nat.le_refl _), Nat.sub_self]
+
+theorem skipWs_extend (buf1 suf : Buf) : ∀ (n i : Nat), buf1.size - i = n → skipWs buf1 i < buf1.size →
+    skipWs (buf1 ++ suf) i = skipWs buf1 i := by
+  intro n
+  induction n with
+  | zero =>
+    intro i hn h
+    have := skipWs_ge buf1 i
+    omega
+  | succ n ih =>
+    intro i hn h
+    have hi : i < buf1.size := by omega
+    have hi2 : i < (buf1 ++ suf).size := by simp; omega
+    rw [skipWs] at h ⊢
+    conv => rhs; rw [skipWs]
+    simp only [hi, hi2, dite_true, getB buf1 suf i hi hi2] at h ⊢
+    by_cases hw : isWs buf1[i] = true
+    · simp only [hw, if_true] at h ⊢
+      exact ih (i + 1) (by omega) h
+    · simp only [hw, Bool.false_eq_true, if_false]
+
+theorem isDigitAt_end (buf1 suf : Buf) (ht : Term suf) : isDigitAt (buf1 ++ suf) buf1.size = false := by
+  unfold isDigitAt
+  rw [get_end]
+  cases hs : suf[0]? with
+  | none => rfl
+  | some c => exact (ht c hs).1
+
+theorem skipDigits_extend (buf1 suf : Buf) (ht : Term suf) : ∀ (n i : Nat), buf1.size + 1 - i = n → i ≤ buf1.size →
+    skipDigits (buf1 ++ suf) i = skipDigits buf1 i := by
+  intro n
+  induction n with
+  | zero => intro i hn h; omega
+  | succ n ih =>
+    intro i hn hle
+    by_cases hi : i < buf1.size
+    · have hi2 : i < (buf1 ++ suf).size := by simp; omega
+      rw [skipDigits]
+      conv => rhs; rw [skipDigits]
+      simp only [hi, hi2, dite_true, getB buf1 suf i hi hi2]
+      by_cases hd : isDigit buf1[i] = true
+      · simp only [hd, if_true]
+        exact ih (i + 1) (by omega) (by omega)
+      · simp only [hd, Bool.false_eq_true, if_false]
+    · have hie : i = buf1.size := by omega
+      subst hie
+      have h1 : skipDigits buf1 buf1.size = buf1.size := by rw [skipDigits]; simp
+      rw [h1]
+      exact Sonic.skipDigits_nondigit (buf1 ++ suf) buf1.size (isDigitAt_end buf1 suf ht)
+
+theorem frac_extend (buf1 suf : Buf) (ht : Term suf) (j k : Nat) (hj : j ≤ buf1.size) (h : frac buf1 j = some k) :
+    frac (buf1 ++ suf) j = some k := by
+  unfold frac at h ⊢
+  by_cases hd : buf1[j]? = some 46
+  · have hjl : j < buf1.size := (Array.getElem?_eq_some_iff.mp hd).1
+    simp only [hd, if_true] at h
+    rw [get_pre buf1 suf j hjl]
+    simp only [hd, if_true]
+    by_cases hg : isDigitAt buf1 (j + 1) = true
+    · simp only [hg, if_true, Option.some.injEq] at h
+      have hj1 : j + 1 < buf1.size := by
+        unfold isDigitAt at hg
+        cases hb : buf1[j + 1]? with
+        | none => rw [hb] at hg; cases hg
+        | some c => exact (Array.getElem?_eq_some_iff.mp hb).1
+      rw [isDigitAt_pre buf1 suf (j + 1) hj1]
+      simp only [hg, if_true, Option.some.injEq]
+      rw [skipDigits_extend buf1 suf ht _ (j + 2) rfl (by omega)]
+      exact h
+    · simp [hg] at h
+  · simp only [hd, if_false, Option.some.injEq] at h
+    subst h
+    have : ¬ ((buf1 ++ suf)[j]? = some 46) := by
+      by_cases hjl : j < buf1.size
+      · rw [get_pre buf1 suf j hjl]; exact hd
+      · have : j = buf1.size := by omega
+        subst this
+        rw [get_end]
+        intro hh
+        exact (ht _ hh).2.1 rfl
+    simp [this]
+
+theorem expo_extend (buf1 suf : Buf) (ht : Term suf) (i k : Nat) (hi : i ≤ buf1.size) (h : expo buf1 i = some k) :
+    expo (buf1 ++ suf) i = some k := by
+  unfold expo at h ⊢
+  by_cases he : (buf1[i]? = some 101 || buf1[i]? = some 69) = true
+  · have hil : i < buf1.size := by
+      cases hb : buf1[i]? with
+      | none => rw [hb] at he; simp at he
+      | some c => exact (Array.getElem?_eq_some_iff.mp hb).1
+    simp only [he, if_true] at h
+    generalize hj : (if (buf1[i + 1]? = some 45 || buf1[i + 1]? = some 43) = true then i + 2 else i + 1) = j at h
+    by_cases hg : isDigitAt buf1 j = true
+    · simp only [hg, if_true, Option.some.injEq] at h
+      have hjl : j < buf1.size := by
+        unfold isDigitAt at hg
+        cases hb : buf1[j]? with
+        | none => rw [hb] at hg; cases hg
+        | some c => exact (Array.getElem?_eq_some_iff.mp hb).1
+      have hji : i + 1 ≤ j := by rw [← hj]; split <;> omega
+      rw [get_pre buf1 suf i hil, get_pre buf1 suf (i + 1) (by omega)]
+      simp only [he, if_true, hj]
+      rw [isDigitAt_pre buf1 suf j hjl]
+      simp only [hg, if_true, Option.some.injEq]
+      rw [skipDigits_extend buf1 suf ht _ (j + 1) rfl (by omega)]
+      exact h
+    · simp [hg] at h
+  · simp only [he, Bool.false_eq_true, if_false, Option.some.injEq] at h
+    subst h
+    have : ((buf1 ++ suf)[i]? = some 101 || (buf1 ++ suf)[i]? = some 69) = false := by
+      by_cases hil : i < buf1.size
+      · rw [get_pre buf1 suf i hil]; simpa using he
+      · have : i = buf1.size := by omega
+        subst this
+        rw [get_end]
+        cases hs : suf[0]? with
+        | none => simp
+        | some c =>
+          have := ht c hs
+          simp [this.2.2.1, this.2.2.2]
+    simp [this]
+
+/-- **a number token of `buf1` is a number token of `buf1 ++ suf`** when `suf` does not continue it -/
+theorem number_extend (buf1 suf : Buf) (ht : Term suf) (i e : Nat) (h : number buf1 i = some e) : number (buf1 ++ suf) i = some e := by
+  obtain ⟨c, hb1, hdc, h0, hlt, hbind⟩ := De.token_head buf1 i e _ rfl h
+  generalize hi1 : (if buf1[i]? = some 45 then i + 1 else i) = i1 at hb1 h0 hlt hbind
+  have hi1l : i1 < buf1.size := (Array.getElem?_eq_some_iff.mp hb1).1
+  have hil : i ≤ i1 := by rw [← hi1]; split <;> omega
+  cases hf : frac buf1 (skipDigits buf1 i1) with
+  | none => rw [hf] at hbind; simp at hbind
+  | some k =>
+    rw [hf, Option.bind_some] at hbind
+    have hi2 : skipDigits buf1 i1 ≤ buf1.size := skipDigits_le buf1 i1 (by omega)
+    have hkl : k ≤ buf1.size := Spec.frac_le buf1 _ k hi2 hf
+    have hsk := skipDigits_extend buf1 suf ht _ i1 rfl (by omega)
+    have hfr := frac_extend buf1 suf ht _ k hi2 hf
+    have hex := expo_extend buf1 suf ht k e hkl hbind
+    have hneg : (buf1 ++ suf)[i]? = buf1[i]? := get_pre buf1 suf i (by omega)
+    have hb2 : (buf1 ++ suf)[i1]? = some c := by rw [get_pre buf1 suf i1 hi1l]; exact hb1
+    unfold number
+    rw [hneg, hi1]
+    simp only [hb2, hdc, if_true]
+    unfold afterFirst
+    have hd1 : isDigitAt buf1 i1 = true := by unfold isDigitAt; rw [hb1]; exact hdc
+    have hd2 : isDigitAt (buf1 ++ suf) i1 = true := by rw [isDigitAt_pre buf1 suf i1 hi1l]; exact hd1
+    by_cases hc : (c == 48) = true
+    · have hc48 : c = 48 := by simpa using hc
+      have hs1 := h0 hc48
+      simp only [hc, if_true, Bool.true_and]
+      have hnd1 : isDigitAt buf1 (i1 + 1) = false := by
+        cases hx : isDigitAt buf1 (i1 + 1) with
+        | false => rfl
+        | true =>
+          have h3 := Sonic.skipDigits_digit buf1 i1 hd1
+          have h5 := Sonic.skipDigits_digit buf1 (i1 + 1) hx
+          have h4 := skipDigits_ge buf1 (i1 + 1 + 1)
+          omega
+      have hnd2 : isDigitAt (buf1 ++ suf) (i1 + 1) = false := by
+        by_cases hl : i1 + 1 < buf1.size
+        · rw [isDigitAt_pre buf1 suf (i1 + 1) hl]; exact hnd1
+        · have : i1 + 1 = buf1.size := by omega
+          rw [this]; exact isDigitAt_end buf1 suf ht
+      simp only [hnd2, Bool.false_eq_true, if_false]
+      rw [hs1] at hfr
+      rw [hfr, Option.bind_some]; exact hex
+    · simp only [hc, Bool.false_eq_true, if_false, Bool.false_and]
+      rw [← Sonic.skipDigits_digit (buf1 ++ suf) i1 hd2, hsk, hfr, Option.bind_some]; exact hex
+
+theorem numberS_extend (s : Bool) (buf1 suf : Buf) (ht : Term suf) (i e : Nat) (h : numberS s buf1 i = some e) :
+    numberS s (buf1 ++ suf) i = some e := by
+  unfold numberS at h ⊢
+  cases hn : number buf1 i with
+  | none => rw [hn] at h; cases h
+  | some e' =>
+    rw [hn] at h
+    simp only at h
+    split at h
+    · cases h
+    · rename_i hfin
+      simp only [Option.some.injEq] at h
+      subst h
+      have hn2 := number_extend buf1 suf ht i e' hn
+      have hle : e' ≤ buf1.size := by
+        have := Spec.number_le buf1 i e' hn; exact this
+      rw [hn2]
+      simp only
+      have : finite (buf1 ++ suf) i e' = finite buf1 i e' := by
+        unfold finite
+        rw [decOf_prefix buf1 suf i e' hn2 hle]
+      rw [this]
+      simp [hfin]
+
+theorem stringG_extend (buf1 suf : Buf) : ∀ (n i e : Nat), buf1.size - i = n → stringG buf1 i = some e →
+    stringG (buf1 ++ suf) i = some e := by
+  intro n
+  induction n using Nat.strongRecOn with
+  | _ n ih =>
+    intro i e hn h
+    have hi : i < buf1.size := (stringG_progress buf1 i e h).2
+    have hi2 : i < (buf1 ++ suf).size := by simp; omega
+    rw [stringG] at h ⊢
+    simp only [hi, hi2, dite_true, getB buf1 suf i hi hi2] at h ⊢
+    by_cases hq : (buf1[i] == 34) = true
+    · simp only [hq, if_true] at h ⊢; exact h
+    · simp only [hq, Bool.false_eq_true, if_false] at h ⊢
+      by_cases hb : (buf1[i] == 92) = true
+      · simp only [hb, if_true] at h ⊢
+        cases hb1 : buf1[i + 1]? with
+        | none => rw [hb1] at h; simp at h
+        | some c =>
+          have hi1 : i + 1 < buf1.size := (Array.getElem?_eq_some_iff.mp hb1).1
+          rw [get_pre buf1 suf (i + 1) hi1, hb1]
+          rw [hb1] at h
+          simp only at h ⊢
+          by_cases hs : isSimpleEsc c = true
+          · simp only [hs, if_true] at h ⊢
+            exact ih (buf1.size - (i + 2)) (by omega) (i + 2) e rfl h
+          · simp only [hs, Bool.false_eq_true, if_false] at h ⊢
+            by_cases hu : (c == 117) = true
+            · simp only [hu, if_true] at h ⊢
+              by_cases hx : hex4ok buf1 (i + 2) = true
+              · simp only [hx, if_true] at h
+                rw [hex4ok_pre buf1 suf (i + 2) (hex4ok_in buf1 (i + 2) hx)]
+                simp only [hx, if_true]
+                exact ih (buf1.size - (i + 6)) (by omega) (i + 6) e rfl h
+              · simp [hx] at h
+            · simp [hu] at h
+      · simp only [hb, Bool.false_eq_true, if_false] at h ⊢
+        by_cases hc : buf1[i] < 32
+        · simp [hc] at h
+        · simp only [hc, if_false] at h ⊢
+          exact ih (buf1.size - (i + 1)) (by omega) (i + 1) e rfl h
+
+theorem string_extend (s : Bool) (buf1 suf : Buf) (i e : Nat) (h : string s buf1 i = some e) : string s (buf1 ++ suf) i = some e := by
+  unfold string at h ⊢
+  cases s with
+  | true =>
+    simp only [if_true] at h ⊢
+    obtain ⟨p, hp, hr⟩ := Option.map_eq_some_iff.mp h
+    rw [stringS_extend false buf1 suf _ i p rfl hp]
+    simp [hr]
+  | false =>
+    simp only [Bool.false_eq_true, if_false] at h ⊢
+    exact stringG_extend buf1 suf _ i e rfl h
+
+theorem litAt_extend (buf1 suf : Buf) : ∀ (bs : List UInt8) (i e : Nat), litAt buf1 i bs = some e → litAt (buf1 ++ suf) i bs = some e := by
+  intro bs
+  induction bs with
+  | nil => intro i e h; exact h
+  | cons b rest ih =>
+    intro i e h
+    unfold litAt at h ⊢
+    by_cases hb : buf1[i]? = some b
+    · simp only [hb, if_true] at h
+      have hi : i < buf1.size := (Array.getElem?_eq_some_iff.mp hb).1
+      rw [get_pre buf1 suf i hi]
+      simp only [hb, if_true]
+      exact ih (i + 1) e h
+    · simp [hb] at h
+
+/-- **a value of `buf1` is a value of `buf1 ++ suf`** when the first byte of `suf` cannot continue a number -/
+theorem value_extend (s : Bool) (buf1 suf : Buf) (ht : Term suf) : ∀ f,
+    (∀ w e, value s f buf1 w = .ok e → value s f (buf1 ++ suf) w = .ok e) ∧
+    (∀ w e, elems s f buf1 w = .ok e → elems s f (buf1 ++ suf) w = .ok e) ∧
+    (∀ w e, members s f buf1 w = .ok e → members s f (buf1 ++ suf) w = .ok e) := by
+  intro f
+  induction f with
+  | zero => refine ⟨?_, ?_, ?_⟩ <;> (intro w e h; simp [value, elems, members] at h)
+  | succ f ih =>
+    obtain ⟨ih1, ih2, ih3⟩ := ih
+    have ws : ∀ i, skipWs buf1 i < buf1.size → skipWs (buf1 ++ suf) i = skipWs buf1 i :=
+      fun i hl => skipWs_extend buf1 suf _ i rfl hl
+    refine ⟨?_, ?_, ?_⟩
+    · intro w e h
+      have hwl := ((progress s buf1 (f + 1) w e).1 h).2
+      unfold value at h ⊢
+      rw [get_pre buf1 suf w hwl]
+      cases hb : buf1[w]? with
+      | none => rw [hb] at h; simp at h
+      | some c =>
+        rw [hb] at h
+        simp only at h ⊢
+        by_cases h1 : (c == 45 || isDigit c) = true
+        · simp only [h1, if_true] at h ⊢
+          rw [numberS_extend s buf1 suf ht w e (ofOpt_ok h)]; rfl
+        · simp only [h1, Bool.false_eq_true, if_false] at h ⊢
+          by_cases h2 : (c == 34) = true
+          · simp only [h2, if_true] at h ⊢
+            rw [string_extend s buf1 suf (w + 1) e (ofOpt_ok h)]; rfl
+          · simp only [h2, Bool.false_eq_true, if_false] at h ⊢
+            by_cases h3 : (c == 123) = true
+            · simp only [h3, if_true] at h ⊢
+              by_cases hcl : buf1[skipWs buf1 (w + 1)]? = some 125
+              · have hjl : skipWs buf1 (w + 1) < buf1.size := (Array.getElem?_eq_some_iff.mp hcl).1
+                simp only [hcl, if_true] at h
+                rw [ws (w + 1) hjl, get_pre buf1 suf _ hjl, hcl]
+                simp only [if_true]; exact h
+              · simp only [hcl, if_false] at h
+                have hjl := ((progress s buf1 f _ e).2.2 h).2
+                rw [ws (w + 1) hjl, get_pre buf1 suf _ hjl]
+                simp only [hcl, if_false]
+                exact ih3 _ e h
+            · simp only [h3, Bool.false_eq_true, if_false] at h ⊢
+              by_cases h4 : (c == 91) = true
+              · simp only [h4, if_true] at h ⊢
+                by_cases hcl : buf1[skipWs buf1 (w + 1)]? = some 93
+                · have hjl : skipWs buf1 (w + 1) < buf1.size := (Array.getElem?_eq_some_iff.mp hcl).1
+                  simp only [hcl, if_true] at h
+                  rw [ws (w + 1) hjl, get_pre buf1 suf _ hjl, hcl]
+                  simp only [if_true]; exact h
+                · simp only [hcl, if_false] at h
+                  have hjl := ((progress s buf1 f _ e).2.1 h).2
+                  rw [ws (w + 1) hjl, get_pre buf1 suf _ hjl]
+                  simp only [hcl, if_false]
+                  exact ih2 _ e h
+              · simp only [h4, Bool.false_eq_true, if_false] at h ⊢
+                by_cases h5 : (c == 116) = true
+                · simp only [h5, if_true] at h ⊢
+                  have := litAt_extend buf1 suf _ (w + 1) e (ofOpt_ok h)
+                  unfold lit at *; rw [this]; rfl
+                · simp only [h5, Bool.false_eq_true, if_false] at h ⊢
+                  by_cases h6 : (c == 102) = true
+                  · simp only [h6, if_true] at h ⊢
+                    have := litAt_extend buf1 suf _ (w + 1) e (ofOpt_ok h)
+                    unfold lit at *; rw [this]; rfl
+                  · simp only [h6, Bool.false_eq_true, if_false] at h ⊢
+                    by_cases h7 : (c == 110) = true
+                    · simp only [h7, if_true] at h ⊢
+                      have := litAt_extend buf1 suf _ (w + 1) e (ofOpt_ok h)
+                      unfold lit at *; rw [this]; rfl
+                    · simp [h7] at h
+    · intro w e h
+      unfold elems at h ⊢
+      cases hv : value s f buf1 w with
+      | err => rw [hv] at h; simp at h
+      | fuel => rw [hv] at h; simp at h
+      | ok e1 =>
+        rw [hv] at h
+        simp only at h
+        rw [ih1 w e1 hv]
+        simp only
+        by_cases hcl : buf1[skipWs buf1 e1]? = some 93
+        · have hjl : skipWs buf1 e1 < buf1.size := (Array.getElem?_eq_some_iff.mp hcl).1
+          simp only [hcl, if_true] at h
+          rw [ws e1 hjl, get_pre buf1 suf _ hjl, hcl]
+          simp only [if_true]; exact h
+        · simp only [hcl, if_false] at h
+          by_cases hco : buf1[skipWs buf1 e1]? = some 44
+          · have hjl : skipWs buf1 e1 < buf1.size := (Array.getElem?_eq_some_iff.mp hco).1
+            simp only [hco, if_true] at h
+            have hjl2 := ((progress s buf1 f _ e).2.1 h).2
+            rw [ws e1 hjl, get_pre buf1 suf _ hjl]
+            simp only [hcl, if_false, hco, if_true]
+            rw [ws _ hjl2]
+            exact ih2 _ e h
+          · simp [hco] at h
+    · intro w e h
+      have hwl := ((progress s buf1 (f + 1) w e).2.2 h).2
+      unfold members at h ⊢
+      rw [get_pre buf1 suf w hwl]
+      by_cases hq : buf1[w]? = some 34
+      · simp only [hq, if_true] at h ⊢
+        cases hs : string s buf1 (w + 1) with
+        | none => rw [hs] at h; simp at h
+        | some k =>
+          rw [hs] at h
+          simp only at h
+          rw [string_extend s buf1 suf (w + 1) k hs]
+          simp only
+          by_cases hcol : buf1[skipWs buf1 k]? = some 58
+          · have hk1 : skipWs buf1 k < buf1.size := (Array.getElem?_eq_some_iff.mp hcol).1
+            simp only [hcol, if_true] at h
+            rw [ws k hk1, get_pre buf1 suf _ hk1]
+            simp only [hcol, if_true]
+            cases hv : value s f buf1 (skipWs buf1 (skipWs buf1 k + 1)) with
+            | err => rw [hv] at h; simp at h
+            | fuel => rw [hv] at h; simp at h
+            | ok e1 =>
+              rw [hv] at h
+              simp only at h
+              have hk2 := ((progress s buf1 f _ e1).1 hv).2
+              rw [ws _ hk2, ih1 _ e1 hv]
+              simp only
+              by_cases hcl : buf1[skipWs buf1 e1]? = some 125
+              · have hjl : skipWs buf1 e1 < buf1.size := (Array.getElem?_eq_some_iff.mp hcl).1
+                simp only [hcl, if_true] at h
+                rw [ws e1 hjl, get_pre buf1 suf _ hjl, hcl]
+                simp only [if_true]; exact h
+              · simp only [hcl, if_false] at h
+                by_cases hco : buf1[skipWs buf1 e1]? = some 44
+                · have hjl : skipWs buf1 e1 < buf1.size := (Array.getElem?_eq_some_iff.mp hco).1
+                  simp only [hco, if_true] at h
+                  have hjl2 := ((progress s buf1 f _ e).2.2 h).2
+                  rw [ws e1 hjl, get_pre buf1 suf _ hjl]
+                  simp only [hcl, if_false, hco, if_true]
+                  rw [ws _ hjl2]
+                  exact ih3 _ e h
+                · simp [hco] at h
+          · simp [hcol] at h
+      · simp [hq] at h
+
 end GrammarPad
 end Sonic
